@@ -117,6 +117,29 @@ theorem frame_sort {a b : TableCollection α} (h : SortRel a b) : Frame a b := b
     rwa [List.map_map, List.map_map, hk] at this
   · exact (rest_iff a b).mpr ⟨r1, r3, r4, r5, r8, r9, r10, r12, r13, r14, r15, r16⟩
 
+theorem timesRest_iff (a b : TableCollection α) :
+    ({ b with mutations := a.mutations } = a) ↔
+    (b.sequenceLength = a.sequenceLength ∧ b.timeUnits = a.timeUnits ∧ b.metadata = a.metadata ∧
+     b.metadataSchema = a.metadataSchema ∧ b.refseq = a.refseq ∧ b.nodes = a.nodes ∧
+     b.nodesSchema = a.nodesSchema ∧ b.edges = a.edges ∧ b.edgesSchema = a.edgesSchema ∧
+     b.sites = a.sites ∧ b.sitesSchema = a.sitesSchema ∧ b.mutationsSchema = a.mutationsSchema ∧
+     b.individuals = a.individuals ∧
+     b.individualsSchema = a.individualsSchema ∧ b.populations = a.populations ∧
+     b.populationsSchema = a.populationsSchema ∧ b.migrations = a.migrations ∧
+     b.migrationsSchema = a.migrationsSchema ∧ b.provenances = a.provenances) := by
+  cases a; cases b
+  simp only [TableCollection.mk.injEq, true_and, and_true]
+
+theorem frame_times {a b : TableCollection α} (h : TimesRel a b) : Frame a b := by
+  have r := (timesRest_iff a b).mp h.rest
+  obtain ⟨r1, r2, r3, r4, r5, r6, r7, r8, r9, r10, r11, r12, r13, r14, r15, r16, r17, r18, r19⟩ := r
+  refine ⟨by rw [r6], by rw [r8], by rw [r17], h.mutSites, ?_, ⟨[], by simp [r19]⟩, ?_⟩
+  · have hk : (fun x : Nat × Nat × Bytes × Bytes => (x.1, x.2.2.1)) ∘ MutRow.key2 =
+        (MutRow.key0 : MutRow α → _) := rfl
+    have := h.muts.map (fun x : Nat × Nat × Bytes × Bytes => (x.1, x.2.2.1))
+    rwa [List.map_map, List.map_map, hk] at this
+  · exact (rest_iff a b).mpr ⟨r1, r3, r4, r5, r9, r10, r11, r13, r14, r15, r16, r18⟩
+
 /-- **Each permitted kind of write stays inside the frame**, whatever value it writes. -/
 theorem step_frame {op : WOp} (hop : op ∈ allowed) {a b : TableCollection α} (h : Step op a b) :
     Frame a b := by
@@ -148,7 +171,7 @@ theorem step_frame {op : WOp} (hop : op ∈ allowed) {a b : TableCollection α} 
     subst hb
     exact frame_refl _
   · exact frame_mutColSet MutRow.setParent (fun _ _ => rfl) (fun _ _ => rfl) h
-  · exact frame_mutColSet MutRow.setTime (fun _ _ => rfl) (fun _ _ => rfl) h
+  · exact frame_times h
   · obtain ⟨r, rfl⟩ := h
     exact ⟨rfl, List.Perm.refl _, List.Perm.refl _, rfl, List.Perm.refl _, ⟨[r], rfl⟩, by cases a; rfl⟩
 
@@ -322,14 +345,22 @@ end Md
 section Stages
 variable {α : Type}
 
-/-- A projection of mutation rows that ignores the columns dating rewrites (time, parent). -/
-structure KeyOK {κ : Type} (k : MutRow α → κ) : Prop where
-  time : ∀ r (x : α), k (r.setTime x) = k r
-  parent : ∀ r (p : Int), k (r.setParent p) = k r
+/-- A projection of mutation rows that ignores the columns dating rewrites (time, parent): it
+factors through (site, node, derived state, metadata). -/
+def KeyOK {κ : Type} (k : MutRow α → κ) : Prop :=
+  ∃ g : Nat × Nat × Bytes × Bytes → κ, ∀ r, k r = g r.key2
 
-theorem keyOK_key0 : KeyOK (MutRow.key0 : MutRow α → _) := ⟨fun _ _ => rfl, fun _ _ => rfl⟩
-theorem keyOK_key1 : KeyOK (MutRow.key1 : MutRow α → _) := ⟨fun _ _ => rfl, fun _ _ => rfl⟩
-theorem keyOK_key2 : KeyOK (MutRow.key2 : MutRow α → _) := ⟨fun _ _ => rfl, fun _ _ => rfl⟩
+theorem KeyOK.time {κ : Type} {k : MutRow α → κ} (hk : KeyOK k) (r : MutRow α) (x : α) :
+    k (r.setTime x) = k r := by
+  obtain ⟨g, hg⟩ := hk; rw [hg, hg]; rfl
+
+theorem KeyOK.parent {κ : Type} {k : MutRow α → κ} (hk : KeyOK k) (r : MutRow α) (p : Int) :
+    k (r.setParent p) = k r := by
+  obtain ⟨g, hg⟩ := hk; rw [hg, hg]; rfl
+
+theorem keyOK_key0 : KeyOK (MutRow.key0 : MutRow α → _) := ⟨fun x => (x.1, x.2.2.1), fun _ => rfl⟩
+theorem keyOK_key1 : KeyOK (MutRow.key1 : MutRow α → _) := ⟨fun x => (x.1, x.2.1, x.2.2.1), fun _ => rfl⟩
+theorem keyOK_key2 : KeyOK (MutRow.key2 : MutRow α → _) := ⟨id, fun _ => rfl⟩
 
 theorem frame_putNodeMd (t : TableCollection α) (m : MdTable) (h : m.mds.length = t.nodes.length) :
     Frame t (putNodeMd t m) := by
@@ -432,32 +463,39 @@ theorem stageCols_key {κ : Type} (k : MutRow α → κ) (hk : KeyOK k) {E : Env
   show k ((row.setTime E.unknownTime).setParent (-1)) = k row
   rw [hk.parent, hk.time]
 
-theorem stageTskit_frame {E : Env α} (hsort : ∀ t, SortRel t (E.sort t)) {t5 t8 : TableCollection α}
+theorem stageTskit_frame {E : Env α} (hsort : ∀ t, SortRel t (E.sort t))
+    (htimes : ∀ t, TimesRel t (E.computeTimes t)) {t5 t8 : TableCollection α}
     (h : stageTskit E t5 = some t8) : Frame t5 t8 := by
   unfold stageTskit at h
   simp only [Option.bind_eq_some_iff] at h
-  obtain ⟨ms7, h7, ms8, h8, h⟩ := h
+  obtain ⟨ms7, h7, h⟩ := h
   obtain ⟨l7, rfl⟩ := setCol?_some _ _ _ _ h7
-  obtain ⟨l8, rfl⟩ := setCol?_some _ _ _ _ h8
   simp only [Option.some.injEq] at h
   subst h
   exact frame_trans (frame_sort (hsort t5)) (frame_trans
     (frame_mutColSet MutRow.setParent (fun _ _ => rfl) (fun _ _ => rfl) ⟨_, l7, rfl⟩)
-    (frame_mutColSet MutRow.setTime (fun _ _ => rfl) (fun _ _ => rfl) ⟨_, l8, rfl⟩))
+    (frame_times (htimes _)))
+
+theorem times_key {κ : Type} (k : MutRow α → κ) (hk : KeyOK k) {a b : TableCollection α}
+    (h : TimesRel a b) : (b.mutations.map k).Perm (a.mutations.map k) := by
+  obtain ⟨g, hg⟩ := hk
+  have hkg : k = g ∘ MutRow.key2 := by funext r; exact hg r
+  have h1 := h.muts.map g
+  rwa [List.map_map, List.map_map, ← hkg] at h1
 
 theorem stageTskit_key {κ : Type} (k : MutRow α → κ) (hk : KeyOK k) {E : Env α}
-    (hsort : ∀ t, SortRel t (E.sort t)) {t5 t8 : TableCollection α}
+    (hsort : ∀ t, SortRel t (E.sort t)) (htimes : ∀ t, TimesRel t (E.computeTimes t))
+    {t5 t8 : TableCollection α}
     (h : stageTskit E t5 = some t8) : (t8.mutations.map k).Perm (t5.mutations.map k) := by
   unfold stageTskit at h
   simp only [Option.bind_eq_some_iff] at h
-  obtain ⟨ms7, h7, ms8, h8, h⟩ := h
+  obtain ⟨ms7, h7, h⟩ := h
   obtain ⟨l7, rfl⟩ := setCol?_some _ _ _ _ h7
-  obtain ⟨l8, rfl⟩ := setCol?_some _ _ _ _ h8
   simp only [Option.some.injEq] at h
   subst h
-  show (List.map k (setCol MutRow.setTime (setCol MutRow.setParent (E.sort t5).mutations _) _)).Perm _
-  rw [map_setCol MutRow.setTime k (fun r v => hk.time r v) _ _ l8,
-    map_setCol MutRow.setParent k (fun r v => hk.parent r v) _ _ l7]
+  refine List.Perm.trans (times_key k hk (htimes _)) ?_
+  show (List.map k (setCol MutRow.setParent (E.sort t5).mutations _)).Perm _
+  rw [map_setCol MutRow.setParent k (fun r v => hk.parent r v) _ _ l7]
   have hp := (hsort t5).muts.map k
   have hnp : k ∘ MutRow.noParent = k := by
     funext r; exact hk.parent r (-1)
@@ -493,22 +531,249 @@ theorem stageCols_fields {E : Env α} {t0 t3 t5 : TableCollection α} {r : Resul
   subst h5
   exact ⟨rfl, rfl, map_setCol NodeRow.setTime _ (fun _ _ => rfl) _ _ ln⟩
 
-theorem stageTskit_fields {E : Env α} (hsort : ∀ t, SortRel t (E.sort t)) {t5 t8 : TableCollection α}
+theorem stageTskit_fields {E : Env α} (hsort : ∀ t, SortRel t (E.sort t))
+    (htimes : ∀ t, TimesRel t (E.computeTimes t)) {t5 t8 : TableCollection α}
     (h : stageTskit E t5 = some t8) :
-    t8.mutationsSchema = t5.mutationsSchema ∧ t8.nodesSchema = t5.nodesSchema ∧ t8.nodes = t5.nodes := by
+    t8.mutationsSchema = t5.mutationsSchema ∧ t8.nodesSchema = t5.nodesSchema ∧ t8.nodes = t5.nodes ∧
+    t8.timeUnits = t5.timeUnits ∧ t8.provenances = t5.provenances := by
   have f8 := (sortRest_iff _ _).mp (hsort t5).rest
   unfold stageTskit at h
   simp only [Option.bind_eq_some_iff] at h
-  obtain ⟨ms7, h7, ms8, h8, h⟩ := h
+  obtain ⟨ms7, h7, h⟩ := h
   simp only [Option.some.injEq] at h
   subst h
-  exact ⟨f8.2.2.2.2.2.2.2.2.2.2.1, f8.2.2.2.2.2.2.1, f8.2.2.2.2.2.1⟩
+  have f9 := (timesRest_iff _ _).mp (htimes { E.sort t5 with mutations := ms7 }).rest
+  exact ⟨f9.2.2.2.2.2.2.2.2.2.2.2.1.trans f8.2.2.2.2.2.2.2.2.2.2.1, f9.2.2.2.2.2.2.1.trans f8.2.2.2.2.2.2.1,
+    f9.2.2.2.2.2.1.trans f8.2.2.2.2.2.1, f9.2.1.trans f8.2.1,
+    f9.2.2.2.2.2.2.2.2.2.2.2.2.2.2.2.2.2.2.trans f8.2.2.2.2.2.2.2.2.2.2.2.2.2.2.2.2⟩
 
 theorem stageProv_fields (E : Env α) (o : Options) (t8 : TableCollection α) :
     (stageProv E o t8).mutationsSchema = t8.mutationsSchema ∧
     (stageProv E o t8).nodesSchema = t8.nodesSchema ∧ (stageProv E o t8).nodes = t8.nodes := by
   unfold stageProv
   split_ifs <;> exact ⟨rfl, rfl, rfl⟩
+
+/-! ### the model as a program over the permitted writes -/
+
+theorem reach_single {W : List WOp} {a b : TableCollection α} (op : WOp) (hop : op ∈ W) (h : Step op a b) :
+    Reach W a b := Reach.step op hop h (Reach.refl b)
+
+theorem reach_trans {W : List WOp} {a b c : TableCollection α} (h1 : Reach W a b) (h2 : Reach W b c) :
+    Reach W a c := by
+  induction h1 with
+  | refl _ => exact h2
+  | step op hop hs _ ih => exact Reach.step op hop hs (ih h2)
+
+theorem reach_mono {W W' : List WOp} (hW : ∀ op ∈ W, op ∈ W') {a b : TableCollection α} (h : Reach W a b) :
+    Reach W' a b := by
+  induction h with
+  | refl _ => exact Reach.refl _
+  | step op hop hs _ ih => exact Reach.step op (hW op hop) hs ih
+
+theorem setCol_map_left {ρ β : Type} (upd : ρ → β → ρ) (g : ρ → ρ) (h : ∀ r v, upd (g r) v = upd r v) :
+    ∀ (rows : List ρ) (vals : List β), setCol upd (rows.map g) vals = setCol upd rows vals
+  | [], _ => by simp [setCol]
+  | _ :: _, [] => by simp [setCol]
+  | r :: rows, v :: vals => by
+    have ih := setCol_map_left upd g h rows vals
+    simp only [setCol, List.map_cons, List.zipWith_cons_cons, h] at ih ⊢
+    rw [ih]
+
+theorem setCol_replicate {ρ β : Type} (upd : ρ → β → ρ) (v : β) :
+    ∀ rows : List ρ, setCol upd rows (List.replicate rows.length v) = rows.map (fun r => upd r v)
+  | [] => rfl
+  | r :: rows => by
+    have ih := setCol_replicate upd v rows
+    simp only [setCol, List.length_cons, List.replicate_succ, List.zipWith_cons_cons, List.map_cons] at ih ⊢
+    rw [ih]
+
+theorem putNodeMd_self (t : TableCollection α) : putNodeMd t (nodeMd t) = t := by
+  unfold putNodeMd nodeMd
+  simp only
+  rw [setCol_same NodeRow.setMetadata (·.metadata) (fun _ => rfl)]
+
+theorem putMutMd_self (t : TableCollection α) : putMutMd t (mutMd t) = t := by
+  unfold putMutMd mutMd
+  simp only
+  rw [setCol_same MutRow.setMetadata (·.metadata) (fun _ => rfl)]
+
+/-- one `set_time_metadata` call on the node table is a sequence of permitted writes -/
+theorem reach_nodeMd (C : Codec α) (p : Option Bool) (d : Bytes) (t : TableCollection α)
+    (mean : List α) (var : Option (List α))
+    (hr : (setTimeMetadata C p d (nodeMd t) mean var).1 ≠ .raised) :
+    Reach allowed t (putNodeMd t (setTimeMetadata C p d (nodeMd t) mean var).2) := by
+  have hlen : (nodeMd t).mds.length = t.nodes.length := by simp [nodeMd]
+  rcases setTimeMetadata_cases C p d (nodeMd t) mean var with ⟨h, _⟩ | ⟨h, _⟩ |
+    ⟨v, md, _, _, hl1, hl2, ⟨hm, h⟩ | ⟨_, h, _⟩ | ⟨_, hm, h⟩ | ⟨_, _, h⟩⟩
+  · rw [h, putNodeMd_self]; exact Reach.refl _
+  · rw [h] at hr; exact absurd rfl hr
+  · rw [h]
+    have l := timeMdArray_length C _ mean v md hm hl1 hl2
+    exact reach_single (.packsetMetadata .nodes) (by decide) ⟨md, by rw [l, hlen], rfl⟩
+  · rw [h, putNodeMd_self]; exact Reach.refl _
+  · rw [h]
+    have l : md.length = t.nodes.length := by
+      rw [timeMdArray_length C _ mean v md hm hl1 (by rw [retryTable_length]; exact hl2), retryTable_length, hlen]
+    -- drop (if anything was there), set the default schema, write the rows
+    by_cases hne : (anyMd (nodeMd t).mds || C.hasSchema (nodeMd t).schema) = true
+    · have hfin : putNodeMd t { retryTable C d (nodeMd t) with mds := md } =
+          { t with nodes := setCol NodeRow.setMetadata (t.nodes.map (·.setMetadata "")) md, nodesSchema := d } := by
+        unfold putNodeMd retryTable
+        simp only [hne, if_true]
+        rw [setCol_map_left NodeRow.setMetadata (·.setMetadata "") (fun _ _ => rfl)]
+      rw [hfin]
+      refine reach_trans (reach_single (.dropMetadata .nodes) (by decide) rfl)
+        (reach_trans (reach_single (.setSchema .nodes) (by decide) ⟨d, rfl⟩)
+          (reach_single (.packsetMetadata .nodes) (by decide) ⟨md, by simp [l], rfl⟩))
+    · have hfin : putNodeMd t { retryTable C d (nodeMd t) with mds := md } =
+          { t with nodes := setCol NodeRow.setMetadata t.nodes md, nodesSchema := d } := by
+        unfold putNodeMd retryTable
+        simp only [hne]
+      rw [hfin]
+      refine reach_trans (reach_single (.setSchema .nodes) (by decide) ⟨d, rfl⟩)
+          (reach_single (.packsetMetadata .nodes) (by decide) ⟨md, by simp [l], rfl⟩)
+  · rw [h] at hr; exact absurd rfl hr
+
+/-- one `set_time_metadata` call on the mutation table is a sequence of permitted writes -/
+theorem reach_mutMd (C : Codec α) (p : Option Bool) (d : Bytes) (t : TableCollection α)
+    (mean : List α) (var : Option (List α))
+    (hr : (setTimeMetadata C p d (mutMd t) mean var).1 ≠ .raised) :
+    Reach allowed t (putMutMd t (setTimeMetadata C p d (mutMd t) mean var).2) := by
+  have hlen : (mutMd t).mds.length = t.mutations.length := by simp [mutMd]
+  rcases setTimeMetadata_cases C p d (mutMd t) mean var with ⟨h, _⟩ | ⟨h, _⟩ |
+    ⟨v, md, _, _, hl1, hl2, ⟨hm, h⟩ | ⟨_, h, _⟩ | ⟨_, hm, h⟩ | ⟨_, _, h⟩⟩
+  · rw [h, putMutMd_self]; exact Reach.refl _
+  · rw [h] at hr; exact absurd rfl hr
+  · rw [h]
+    have l := timeMdArray_length C _ mean v md hm hl1 hl2
+    exact reach_single (.packsetMetadata .mutations) (by decide) ⟨md, by rw [l, hlen], rfl⟩
+  · rw [h, putMutMd_self]; exact Reach.refl _
+  · rw [h]
+    have l : md.length = t.mutations.length := by
+      rw [timeMdArray_length C _ mean v md hm hl1 (by rw [retryTable_length]; exact hl2), retryTable_length, hlen]
+    -- drop (if anything was there), set the default schema, write the rows
+    by_cases hne : (anyMd (mutMd t).mds || C.hasSchema (mutMd t).schema) = true
+    · have hfin : putMutMd t { retryTable C d (mutMd t) with mds := md } =
+          { t with mutations := setCol MutRow.setMetadata (t.mutations.map (·.setMetadata "")) md, mutationsSchema := d } := by
+        unfold putMutMd retryTable
+        simp only [hne, if_true]
+        rw [setCol_map_left MutRow.setMetadata (·.setMetadata "") (fun _ _ => rfl)]
+      rw [hfin]
+      refine reach_trans (reach_single (.dropMetadata .mutations) (by decide) rfl)
+        (reach_trans (reach_single (.setSchema .mutations) (by decide) ⟨d, rfl⟩)
+          (reach_single (.packsetMetadata .mutations) (by decide) ⟨md, by simp [l], rfl⟩))
+    · have hfin : putMutMd t { retryTable C d (mutMd t) with mds := md } =
+          { t with mutations := setCol MutRow.setMetadata t.mutations md, mutationsSchema := d } := by
+        unfold putMutMd retryTable
+        simp only [hne]
+      rw [hfin]
+      refine reach_trans (reach_single (.setSchema .mutations) (by decide) ⟨d, rfl⟩)
+          (reach_single (.packsetMetadata .mutations) (by decide) ⟨md, by simp [l], rfl⟩)
+  · rw [h] at hr; exact absurd rfl hr
+
+theorem reach_stageMd {E : Env α} {o : Options} {t0 t3 : TableCollection α} {r : Results α} {tr : Trace}
+    (h : stageMd E o t0 r = some (t3, tr)) : Reach allowed t0 t3 := by
+  unfold stageMd at h
+  simp only at h
+  split_ifs at h with h1 h2
+  simp only [Option.some.injEq, Prod.mk.injEq] at h
+  obtain ⟨rfl, _⟩ := h
+  refine reach_trans (reach_single .setTimeUnits (by decide) ⟨o.timeUnits, rfl⟩)
+    (reach_trans (reach_nodeMd _ _ _ _ _ _ h1) (reach_mutMd _ _ _ _ _ _ h2))
+
+theorem reach_stageCols {E : Env α} {t0 t3 t5 : TableCollection α} {r : Results α}
+    (h : stageCols E t0 t3 r = some t5) : Reach allowed t3 t5 := by
+  unfold stageCols at h
+  simp only [Option.bind_eq_some_iff] at h
+  obtain ⟨ns, hns, ms, hms, h5⟩ := h
+  obtain ⟨ln, rfl⟩ := setCol?_some _ _ _ _ hns
+  obtain ⟨lm, rfl⟩ := setCol?_some _ _ _ _ hms
+  simp only [Option.some.injEq] at h5
+  subst h5
+  generalize hN : setCol NodeRow.setTime t3.nodes (E.constrain t0 r.posteriorMean) = N
+  generalize hM1 : setCol MutRow.setNode t3.mutations r.mutationNode = M1
+  have hM : M1.map (fun row => (row.setTime E.unknownTime).setParent (-1)) =
+      setCol MutRow.setParent (setCol MutRow.setTime M1 (List.replicate M1.length E.unknownTime))
+        (List.replicate (setCol MutRow.setTime M1 (List.replicate M1.length E.unknownTime)).length (-1)) := by
+    rw [setCol_replicate MutRow.setParent, setCol_replicate MutRow.setTime, List.map_map]
+    rfl
+  rw [hM]
+  generalize hM2 : setCol MutRow.setTime M1 (List.replicate M1.length E.unknownTime) = M2
+  have l2 : (List.replicate M1.length E.unknownTime).length = M1.length := by simp
+  have r1 : Reach allowed t3 { t3 with nodes := N } :=
+    reach_single (.setColumn .nodes "time") (by decide) ⟨_, ln, by rw [hN]⟩
+  have r2 : Reach allowed { t3 with nodes := N } { t3 with nodes := N, mutations := M1 } :=
+    reach_single (.setColumn .mutations "node") (by decide) ⟨_, lm, by rw [← hM1]⟩
+  have r3 : Reach allowed { t3 with nodes := N, mutations := M1 } { t3 with nodes := N, mutations := M2 } :=
+    reach_single (.setColumn .mutations "time") (by decide) ⟨_, l2, by rw [← hM2]⟩
+  have r4 : Reach allowed { t3 with nodes := N, mutations := M2 }
+      { t3 with nodes := N, mutations := setCol MutRow.setParent M2 (List.replicate M2.length (-1)) } :=
+    reach_single (.setColumn .mutations "parent") (by decide) ⟨_, by simp, rfl⟩
+  exact reach_trans r1 (reach_trans r2 (reach_trans r3 r4))
+
+theorem reach_stageTskit {E : Env α} (hsort : ∀ t, SortRel t (E.sort t))
+    (htimes : ∀ t, TimesRel t (E.computeTimes t)) {t5 t8 : TableCollection α}
+    (h : stageTskit E t5 = some t8) : Reach allowed t5 t8 := by
+  unfold stageTskit at h
+  simp only [Option.bind_eq_some_iff] at h
+  obtain ⟨ms7, h7, h⟩ := h
+  obtain ⟨l7, rfl⟩ := setCol?_some _ _ _ _ h7
+  simp only [Option.some.injEq] at h
+  subst h
+  exact reach_trans (reach_single (.call "sort") (by decide) (hsort t5))
+    (reach_trans (reach_single (.call "build_index") (by decide) rfl)
+      (reach_trans (reach_single (.call "compute_mutation_parents") (by decide) ⟨_, l7, rfl⟩)
+        (reach_single (.call "compute_mutation_times") (by decide) (htimes _))))
+
+theorem reach_stageProv (E : Env α) (o : Options) (t8 : TableCollection α) :
+    Reach allowed t8 (stageProv E o t8) := by
+  unfold stageProv
+  split_ifs
+  · exact reach_single (.addRow .provenances) (by decide) ⟨_, rfl⟩
+  · exact Reach.refl _
+
+/-- **The executable model is a program over the permitted writes.** -/
+theorem reach_getModifiedTs {E : Env α} (hsort : ∀ t, SortRel t (E.sort t))
+    (htimes : ∀ t, TimesRel t (E.computeTimes t)) {o : Options}
+    {t0 out : TableCollection α} {r : Results α} {tr : Trace}
+    (h : getModifiedTs E o t0 r = some (out, tr)) : Reach allowed t0 out := by
+  obtain ⟨t3, t5, t8, h3, h5, h8, rfl⟩ := getModifiedTs_some h
+  exact reach_trans (reach_stageMd h3) (reach_trans (reach_stageCols h5)
+    (reach_trans (reach_stageTskit hsort htimes h8) (reach_stageProv E o t8)))
+
+theorem stageMd_units {E : Env α} {o : Options} {t0 t3 : TableCollection α} {r : Results α} {tr : Trace}
+    (h : stageMd E o t0 r = some (t3, tr)) :
+    t3.timeUnits = o.timeUnits ∧ t3.provenances = t0.provenances := by
+  unfold stageMd at h
+  simp only at h
+  split_ifs at h
+  simp only [Option.some.injEq, Prod.mk.injEq] at h
+  obtain ⟨rfl, _⟩ := h
+  exact ⟨rfl, rfl⟩
+
+theorem stageCols_units {E : Env α} {t0 t3 t5 : TableCollection α} {r : Results α}
+    (h : stageCols E t0 t3 r = some t5) :
+    t5.timeUnits = t3.timeUnits ∧ t5.provenances = t3.provenances := by
+  unfold stageCols at h
+  simp only [Option.bind_eq_some_iff, Option.some.injEq] at h
+  obtain ⟨ns, _, ms, _, rfl⟩ := h
+  exact ⟨rfl, rfl⟩
+
+theorem provenance_and_units {E : Env α} {o : Options} {t0 out : TableCollection α} {r : Results α}
+    {tr : Trace} (hsort : ∀ t, SortRel t (E.sort t)) (htimes : ∀ t, TimesRel t (E.computeTimes t))
+    (h : getModifiedTs E o t0 r = some (out, tr)) :
+    out.timeUnits = o.timeUnits ∧
+    ∃ row, out.provenances = t0.provenances ++ (if o.recordProvenance = true then [row] else []) := by
+  obtain ⟨t3, t5, t8, h3, h5, h8, rfl⟩ := getModifiedTs_some h
+  have u3 := stageMd_units h3
+  have u5 := stageCols_units h5
+  have u8 := stageTskit_fields hsort htimes h8
+  have hu : t8.timeUnits = o.timeUnits := by rw [u8.2.2.2.1, u5.1, u3.1]
+  have hp : t8.provenances = t0.provenances := by rw [u8.2.2.2.2, u5.2, u3.2]
+  unfold stageProv
+  split_ifs with hr
+  · exact ⟨hu, E.provRow t8, by simp [hp]⟩
+  · exact ⟨hu, E.provRow t8, by simp [hp]⟩
 
 end Stages
 
